@@ -9,7 +9,11 @@ def run_one(prop, ctl, repo):
     d = tempfile.mkdtemp(prefix="sm9ctl.")
     try:
         subprocess.run(["rsync", "-a", "--exclude", "target", "--exclude", ".git", repo.rstrip("/") + "/", d + "/"], check=True)
-        for f, old, new in ctl["edits"]:
+        if ctl.get("patch"):
+            pr = subprocess.run(["patch", "-p1", "-s", "-i", os.path.join(VERIF, ctl["patch"])], cwd=d, capture_output=True, text=True)
+            if pr.returncode != 0:
+                return ("skipped", "patch %s no longer applies" % ctl["patch"])
+        for f, old, new in ctl.get("edits", []):
             p = os.path.join(d, f)
             t = open(p).read()
             if old not in t:
